@@ -45,7 +45,17 @@ func (k msgServer) ClaimReward(goCtx context.Context, msg *types.MsgClaimReward)
 		return nil, err
 	}
 
+	workerRewardBeforeRepay := workerReward
 	k.RepayPledgeDebt(ctx, msg.Creator, []*sdk.Coin{&claimReward, &workerReward})
+
+	// debt repaid out of storage income is shard collateral: it belongs in the node escrow,
+	// which pays it back when the shard is released
+	if repaid := workerRewardBeforeRepay.Sub(workerReward); !repaid.IsZero() {
+		err := k.bank.SendCoinsFromModuleToModule(ctx, markettypes.ModuleName, types.ModuleName, sdk.Coins{repaid})
+		if err != nil {
+			return nil, err
+		}
+	}
 
 	if !claimReward.IsZero() {
 		logger.Debug("CoinTrace: block reward", "from", types.ModuleName, "to", msg.GetSigners()[0], "amount", claimReward.String())
